@@ -40,6 +40,10 @@ DecOf(k, b) ==
     [] k = "eptmap" -> DecEptMap(b)
     [] k = "eptres" -> LET d == DecEptMapResult(b) IN IF d.ok THEN [ok |-> TRUE, v |-> d.v] ELSE [ok |-> FALSE]
 
+(* frag_length of a generated PDU is taken from the real pack(); the well-formed message the spec talks  *)
+(* about has the frag_length of the layout.  If they differ the real encoding differs from the layout.  *)
+Norm(k, f) == IF k = "pdu" THEN [f EXCEPT !.hdr.frag_len = Len(EncPdu(f))] ELSE f
+
 InverseClauses(ln) ==        \* the statement's clauses about X.unpack(b)
   (IF ln.dec # "ok" THEN {"decoding_encoded_message_fails"} ELSE {})
   \cup (IF ln.dec = "ok" /\ ln.b2 # ln.b THEN {"reencoding_decoded_message_changes_bytes"} ELSE {})
@@ -47,8 +51,8 @@ InverseClauses(ln) ==        \* the statement's clauses about X.unpack(b)
 
 Fails(ln) ==
   CASE ln.t = "enc" ->
-         (IF ~WellFormedOf(ln.k, ln.f) THEN {"MACHINERY_generated_message_not_well_formed"} ELSE {})
-         \cup (IF EncOf(ln.k, ln.f) # ln.b THEN {"DRIFT_encoding_differs_from_layout"} ELSE {})
+         (IF ~WellFormedOf(ln.k, Norm(ln.k, ln.f)) THEN {"MACHINERY_generated_message_not_well_formed"} ELSE {})
+         \cup (IF EncOf(ln.k, Norm(ln.k, ln.f)) # ln.b THEN {"DRIFT_encoding_differs_from_layout"} ELSE {})
          \cup InverseClauses(ln)
     [] ln.t = "specdec" ->
          (IF EncOf(ln.k, ln.f) # ln.b THEN {"MACHINERY_not_the_spec_encoding"} ELSE {}) \cup InverseClauses(ln)
@@ -70,7 +74,7 @@ Result ==
       F == [i \in 1 .. N |-> Fails(L[i])]
   IN <<"RESULT",
        [n |-> N,
-        spec |-> {<<L[i].id, EncOf(L[i].k, L[i].f)>> : i \in {j \in 1 .. N : "DRIFT_encoding_differs_from_layout" \in F[j]}}],
+        spec |-> {<<L[i].id, EncOf(L[i].k, Norm(L[i].k, L[i].f))>> : i \in {j \in 1 .. N : "DRIFT_encoding_differs_from_layout" \in F[j]}}],
        {<<L[i].id, F[i]>> : i \in {j \in 1 .. N : F[j] # {}}}>>
 ASSUME PrintT(Result)
 =============================================================================
